@@ -213,6 +213,11 @@ class MExpander(Expander):
             return v
         if isinstance(f, ast.Attribute) and f.attr in ("copy", "squeeze") and not node.args:
             return self.eval(f.value, env)
+        if short == "diag" and len(node.args) == 1:
+            v = self.need_m(self.eval(node.args[0], env))
+            if v.rank == 1 and len(v.terms) == 1 and list(v.terms.values()) == [1]:
+                name = f"diag({ncf.word_str(next(iter(v.terms)))})"
+                return M.atom(name, 2, True)
         if short in ("diagonal", "diag"):
             raise Unsupported(f"`{ast.unparse(node)}` (diagonal extraction) in matrix context")
         if short == "zeros":
